@@ -4,6 +4,7 @@ import vlib, corr_dwt as cd
 from props.common import *
 
 ID = 'C01'
+GRAD_MODES = True
 PROPS_MODULE = 'Props.C01'
 THEOREMS = ['C01_level_row', 'C01_level_row_per', 'C01_level_col', 'C01_level_2d', 'C01_level_2d_per', 'C01_multilevel_1d', 'C01_multilevel_1d_per', 'C01_multilevel_2d', 'C01_multilevel_2d_per', 'C01_per_short_refuted', 'C01_hyps_satisfiable']
 VO = ['theories/Props/C01.vo', 'theories/Run/RunDwt.vo', 'theories/Run/RunSpec.vo']
